@@ -58,7 +58,7 @@ type c19Chg struct {
 }
 
 type c19Op struct {
-	kind  byte // 's', 'n', 'd', 'e'
+	kind  byte // 's', 'n', 'd', 'e', 'x' (the Watch context is cancelled; the source goes on)
 	iface int  // s
 	mask  Change
 	cs    []c19Chg // n: every interface at most once (a changeSet is a map)
@@ -83,6 +83,8 @@ func c19Case(ops []c19Op) string {
 			c.S("d").N(o.id).N(o.n)
 		case 'e':
 			c.S("e")
+		case 'x':
+			c.S("x")
 		}
 	}
 	return c.String()
@@ -118,6 +120,10 @@ func c19Rec(t *vfh.Toks, got []Change, closed bool) {
 // c19Exec runs one history against a fresh Watcher.  Must be called inside a synctest bubble.
 func c19Exec(ops []c19Op) string {
 	w := NewWatcher()
+	// 'x' cancels the Watch context while the (injected) source keeps delivering until 'e': a
+	// source that has a batch queued when it is interrupted. Closing is due when Watch ends.
+	wctx, wcancel := context.WithCancel(context.Background())
+	defer wcancel()
 	cmdC := make(chan changeSet)
 	ackC := make(chan struct{})
 	doneC := make(chan string, 1)
@@ -136,7 +142,7 @@ func c19Exec(ops []c19Op) string {
 			}
 			doneC <- "ok"
 		}()
-		_ = w.Watch(context.Background())
+		_ = w.Watch(wctx)
 	}()
 
 	var chans []<-chan Change
@@ -202,6 +208,9 @@ loop:
 			got, closed := c19Drain(chans[o.id], o.n)
 			c19Rec(recs, got, closed)
 			nrec++
+		case 'x':
+			wcancel()
+			time.Sleep(time.Millisecond) // let whatever reacts to the cancellation run
 		case 'e':
 			close(cmdC)
 			ended = true
@@ -358,6 +367,16 @@ func c19Random(r *vfh.Rand) []c19Op {
 			ops = append(ops, c19Op{kind: 'd', id: r.Intn(nsubs), n: r.Intn(12)})
 		}
 	}
+	// in one history out of five the Watch context is cancelled somewhere before the source ends
+	if r.Chance(1, 5) && len(ops) > 1 {
+		pos := r.Intn(len(ops))
+		for i, o := range ops {
+			if o.kind == 'e' && pos > i {
+				pos = i
+			}
+		}
+		ops = append(ops[:pos], append([]c19Op{{kind: 'x'}}, ops[pos:]...)...)
+	}
 	return ops
 }
 
@@ -381,8 +400,29 @@ func c19SingleUse(n int) string {
 	return res.String()
 }
 
+// c19CancelThenNotify: the source delivers one more batch after the Watch context was cancelled
+// (an rtnetlink batch already queued when the read is interrupted): it must still reach the
+// subscribers, and the channels are closed only when Watch ends.
+func c19CancelThenNotify() [][]c19Op {
+	var out [][]c19Op
+	for _, m := range []Change{LinkDown, LinkUp | LinkDown, LinkAny} {
+		out = append(out, []c19Op{
+			{kind: 's', iface: 0, mask: m},
+			{kind: 'n', cs: []c19Chg{{iface: 0, changes: []Change{LinkUp}}}},
+			{kind: 'x'},
+			{kind: 'n', cs: []c19Chg{{iface: 0, changes: []Change{LinkDown}}}},
+			{kind: 'd', id: 0, n: 4},
+			{kind: 'e'},
+		})
+	}
+	return out
+}
+
 func verifC19(t *testing.T, r *vfh.Rand, out *vfh.Out) {
 	cr := &c19Runner{t: t, out: out}
+	for _, ops := range c19CancelThenNotify() {
+		cr.run(ops)
+	}
 
 	// (1) exhaustive: every mask (the 127 non-empty subsets and the empty one) x every single
 	// change x the interface the change occurs on; one subscriber per interface name with that
